@@ -91,8 +91,12 @@ func runOne(s script, profile string, seed uint64, w *traceWriter) {
 			if x := recover(); x != nil {
 				switch e := x.(type) {
 				case stuck:
+					where, block := blockedIn(e.stack)
 					r.status = "stuck:" + r.describe(e.what)
-					w.line("K", strconv.Itoa(s.idx), strings.ReplaceAll(firstLines(e.stack, 90), "\n", " | "))
+					if where != "" {
+						r.status += ":in-" + where
+					}
+					w.line("K", strconv.Itoa(s.idx), strings.ReplaceAll(block+"\n----\n"+firstLines(e.stack, 40), "\n", " | "))
 				case harnessTrouble:
 					w.line("E", strconv.Itoa(s.idx), "harness:"+e.msg)
 					fmt.Fprintln(os.Stderr, "HARNESS-TROUBLE:", e.msg)
@@ -119,6 +123,28 @@ func runOne(s script, profile string, seed uint64, w *traceWriter) {
 	}()
 	r.finish()
 	r.teardown()
+}
+
+// blockedIn finds the receive loop's goroutine in a dump and names the client function it is blocked in.
+func blockedIn(stack string) (string, string) {
+	for _, g := range strings.Split(stack, "\n\n") {
+		if !strings.Contains(g, "startReadingResponses.func1") || strings.Contains(g, "csched.(*Sched).Hook") {
+			continue
+		}
+		where := "receive-loop"
+		switch {
+		case strings.Contains(g, ".warnError"):
+			where = "warnError"
+		case strings.Contains(g, ".writeRPCResponse"):
+			where = "writeRPCResponse"
+		case strings.Contains(g, ".processResponse") && strings.Contains(g, "chan send"):
+			where = "processResponse-chan-send"
+		case strings.Contains(g, ".processResponse"):
+			where = "processResponse"
+		}
+		return where, g
+	}
+	return "", ""
 }
 
 func firstLines(s string, n int) string {
@@ -239,14 +265,15 @@ func (r *run) runEnabled() {
 	trouble("closing procedure did not come to rest")
 }
 
-var nextCloseSid int64 = 1 << 40
-
 func (r *run) closingSid(answer bool) int64 {
-	nextCloseSid += 4
-	if answer {
-		return nextCloseSid + 1
+	if r.nextCloseSid == 0 {
+		r.nextCloseSid = 1 << 40
 	}
-	return nextCloseSid + 3
+	r.nextCloseSid += 4
+	if answer {
+		return r.nextCloseSid + 1
+	}
+	return r.nextCloseSid + 3
 }
 
 // settleAndProbe is the closing procedure of every schedule.
@@ -260,6 +287,9 @@ func (r *run) settleAndProbe() {
 			if cs == nil || cs.done || cs.frame < 0 || cs.answers > 0 || !r.inRecv[c.name] && r.sc.Parked(c.name) != nil {
 				continue
 			}
+			if len(cs.ids) == 0 || cs.ids[len(cs.ids)-1] != cs.msgID || r.wasRejected(cs.msgID) {
+				continue
+			}
 			if r.closePending {
 				continue
 			}
@@ -271,7 +301,6 @@ func (r *run) settleAndProbe() {
 				b.kind = "obj" // a vector for a call without hints would only be one more undecodable message
 			}
 			sid := r.closingSid(true)
-			r.slog(fmt.Sprintf("srv %d 1 %s", sid, b.script()))
 			r.doSrv(sid, 1, b)
 			answered = true
 		}
@@ -284,14 +313,12 @@ func (r *run) settleAndProbe() {
 	t := len(r.callers)
 	r.addCaller()
 	tok := int64(900000 + r.idx%1000)
-	r.slog(fmt.Sprintf("call %d obj 0 %d", t, tok))
 	r.doCall(t, callSpec{kind: "obj", token: tok})
 	r.runEnabled()
 	cs := r.callers[t].calls[0]
 	if cs.frame >= 0 && !cs.done {
 		sid := r.closingSid(true)
 		b := &bodySpec{op: "res", ref: fmt.Sprintf("@%d.0", t), kind: "obj", tok: tok}
-		r.slog(fmt.Sprintf("srv %d 1 %s", sid, b.script()))
 		r.doSrv(sid, 1, b)
 		r.runEnabled()
 	}
